@@ -98,16 +98,19 @@ static int reassemble(struct websocket *s, uint8_t *msg, size_t length)
 			strm->avail_in = memory - 4;
 			write_int_to_array(strm->next_in, memory);
 		}
-		if (strm->avail_in <= length + 4) {
-			unsigned int next_size = read_int_from_array(strm->next_in) * 2;
-			strm->next_in = realloc(strm->next_in, next_size);
-			if (unlikely(strm->next_in == NULL)) {
+		while (strm->avail_in <= length + 4) {
+			unsigned int size = read_int_from_array(strm->next_in);
+			unsigned int next_size = size * 2;
+			uint8_t *bigger = realloc(strm->next_in, next_size);
+			if (unlikely(bigger == NULL)) {
 				log_err("Reassemble: Not enough memory for realloc!");
-				strm->avail_in = 0;
 				free(strm->next_in);
+				strm->next_in = NULL;
+				strm->avail_in = 0;
 				return -1;
 			}
-			strm->avail_in += next_size / 2;
+			strm->next_in = bigger;
+			strm->avail_in += size;
 			write_int_to_array(strm->next_in, next_size);
 		}
 		unsigned int write_offset = read_int_from_array(strm->next_in) - strm->avail_in;
